@@ -14,6 +14,7 @@ from . import realcanon
 
 _SCRATCH_BASE = "/dev/shm" if os.path.isdir("/dev/shm") and os.access("/dev/shm", os.W_OK) else "/tmp"
 _counter = [0]
+_HOME = os.getcwd()
 
 
 def scratch_root() -> str:
@@ -34,7 +35,7 @@ class World:
         self.texts: dict[str, str] = {}
         self.prints: list[tuple[str, int, str]] = []
         self.open_logs: list[list[str]] = []
-        self._home = os.getcwd()
+        self._home = _HOME
         self.build()
 
     # ---- construction ------------------------------------------------------------------------------------------
